@@ -19,6 +19,7 @@ import (
 	"verif/props/core"
 	"verif/props/proto"
 	"verif/shim/vtime"
+	"verif/simnet"
 	"verif/vsched"
 )
 
@@ -417,6 +418,21 @@ func genWire(tier string) []proto.Item {
 				s := proto.Scn{Variant: v, First: 1, Last: 4, Dest: 3, IPIDBase: 700, EchoBase: 71, TimeoutMs: 100, DelayMs: 10}
 				s.Inject = []proto.Inject{{OnTTL: t, AnswerTTL: t, Form: "synack", From: s.Target().String(), DelayUs: d, Tag: "handshake-synack-retransmitted"}}
 				items = append(items, proto.Item{Scn: s, Class: fmt.Sprintf("wire/%s/r1-4/synack-retransmitted", v), Note: map[string]string{"want_len": "3"}})
+			}
+		}
+	}
+	// relaxed variants behind a NAT that rewrote the quoted source (address and port) of a router's time-exceeded: the
+	// reply is accepted, early or late, and reflected in the result on every schedule
+	for _, v := range proto.Variants {
+		vi := proto.Info(v)
+		if !vi.Relaxed || !vi.Parallel || vi.Kind == "icmp4" || vi.Kind == "icmp6" {
+			continue
+		}
+		for _, t := range []int{1, 2} {
+			for _, d := range []int{3000, 95000} {
+				s := proto.Scn{Variant: v, First: 1, Last: 5, Dest: 3, IPIDBase: 700, EchoBase: 71, TimeoutMs: 300, DelayMs: 10, Bound: 1}
+				s.Hops = map[int]proto.HopSpec{t: {DelayUs: d, Rewrite: []simnet.Perturb{{Field: "q.src", Op: "other", Other: 0x21}, {Field: "q.sport", Op: "other", Other: 40001}}}}
+				items = append(items, proto.Item{Scn: s, Class: fmt.Sprintf("wire/%s/r1-5/nat-rewritten-quote", v)})
 			}
 		}
 	}
